@@ -104,6 +104,13 @@ def make_inputs(rng, kind):
             shift = rng.randrange(3)
             text = "//" + "x" * shift + "\n" + "\n".join(line + ("  // \u5b57\u00e9\u8a9e\u20ac\u672c\u65e5" if k % 2 == 0 else "") for k, line in enumerate(text.split("\n")))
         return {"main.pn": text.encode()}, ["main.pn"], True, True, ["main.pn"]
+    if kind == "compiler_panics":
+        # an input on which the compiler itself is known to panic (C02's business): whatever it does,
+        # this is no success - non-zero exit, no backend, no claim of a complete run
+        with open(os.path.join(REPO, "tests", "samples", "invalid", "missing_address_slice_pointer.pn"), "rb") as f:
+            bad = f.read()
+        prog = pngen.generate(rng, n_funcs=2, with_main=False, prefix="q")
+        return {"main.pn": bad, "helper.pn": prog.single_file().encode()}, rng.choice([["main.pn", "helper.pn"], ["helper.pn", "main.pn"]]), False, True, ["main.pn", "helper.pn"]
     if kind == "package_only":
         pkg = rng.choice(["core:text", "core:text/char.pn", "vendor:libc"])
         return {}, [pkg], True, True, []
@@ -115,7 +122,7 @@ def make_inputs(rng, kind):
 
 INPUT_KINDS = ["valid_single", "valid_multi", "invalid_single", "invalid_multi", "syntax_error", "missing_file",
                "directory_as_file", "non_utf8", "empty_file", "with_core", "valid_large", "package_only", "zoo_invalid",
-               "valid_with_lints"]
+               "valid_with_lints", "compiler_panics"]
 
 
 def make_scenario(rng, sub=None, input_kind=None, force=None):
@@ -127,7 +134,7 @@ def make_scenario(rng, sub=None, input_kind=None, force=None):
     files, inputs, compile_ok, inputs_ok, modules = make_inputs(rng, input_kind)
     if compile_ok is None:
         compile_ok = None      # decided by the census (see run_census)
-    sc = {"sub": sub, "input_kind": input_kind, "files": files, "inputs": inputs, "compile_ok": compile_ok,
+    sc = {"sub": sub, "input_kind": input_kind, "may_panic": input_kind == "compiler_panics", "files": files, "inputs": inputs, "compile_ok": compile_ok,
           "inputs_ok": inputs_ok, "modules": modules, "env": {}, "opts": [], "stubs": [], "config_ok": True,
           "backend_args": [], "link_args": [], "wasm": False, "pre_dirs": [], "pre_files": {}}
     opt = lambda name, p: force.get(name, rng.random() < p)  # noqa: E731
@@ -397,6 +404,7 @@ def trace_sha(trace):
     return sha("\n".join(l for l in trace if not l.startswith("T err ")))
 
 
+TID = re.compile(rb"thread '[^']*' \(\d+\)")      # a panic message of the Rust runtime names the OS thread id
 TRACE_LINE = re.compile(r"^T (\w+) (\d+) ?(.*?) ?= (.*)$")
 
 
@@ -545,7 +553,7 @@ def judge(sc, obs, census, plan_kind, benign, self_census=False):
         viol.append(("cli_crash", "penne died with %s (%s)" % (obs["status"], why)))
     if rc == 2 and b"Usage:" in obs["err"]:
         viol.append(("unexpected_usage_error", "a valid command line was rejected: %s" % obs["err"].decode(errors="replace")[:300]))
-    if rc == 101 and not stdio_failed:
+    if rc == 101 and not stdio_failed and not sc.get("may_panic"):
         viol.append(("cli_panic", "penne panicked: %s" % obs["err"].decode(errors="replace")[-300:]))
     if not stdio_failed:
         if expect_zero and not ok_exit and not (sc.get("may_refuse") and rc == 1 and obs["err"].strip()):
@@ -631,7 +639,7 @@ def judge(sc, obs, census, plan_kind, benign, self_census=False):
             viol.append(("ascii_arrows_has_box_chars", repr(bad)))
     # S1: benign faults are absorbed: indistinguishable from the fault-free run
     if benign and census is not None and fired:
-        same = (obs["status"] == census["status"] and obs["out"] == census["out"] and obs["err"] == census["err"]
+        same = (obs["status"] == census["status"] and obs["out"] == census["out"] and TID.sub(b"thread", obs["err"]) == TID.sub(b"thread", census["err"])
                 and obs["artefacts"] == census["artefacts"] and [(m["id"], m["args"], m.get("stdin_fnv")) for m in obs["marker"]] ==
                 [(m["id"], m["args"], m.get("stdin_fnv")) for m in census["marker"]])
         if not same:
@@ -640,7 +648,7 @@ def judge(sc, obs, census, plan_kind, benign, self_census=False):
                 what.append("status %s vs %s" % (obs["status"], census["status"]))
             if obs["out"] != census["out"]:
                 what.append("stdout differs")
-            if obs["err"] != census["err"]:
+            if TID.sub(b"thread", obs["err"]) != TID.sub(b"thread", census["err"]):
                 what.append("stderr differs: %r" % obs["err"][-200:])
             if obs["artefacts"] != census["artefacts"]:
                 what.append("artefacts differ")
